@@ -58,7 +58,7 @@ class VCSink:
     def __init__(self, res, prop, max_samples=3):
         self.res, self.prop, self.max_samples = res, prop, max_samples
 
-    def check(self, path, name, claim, axioms=(), site=None, describe=None, model_of=None, timeout_ms=None, prefer=(), isolated=False, guided_free=None):
+    def check(self, path, name, claim, axioms=(), site=None, describe=None, model_of=None, timeout_ms=None, prefer=(), isolated=False, guided_free=None, structural_claim=False):
         """name: VC id without the property prefix. describe(model)->dict builds the candidate's
         concrete input from the model."""
         if isolated:
@@ -71,11 +71,11 @@ class VCSink:
                 r, m = "sat", m2
         res = self.res
         res["vcs"] += 1
-        structural = (not nontrivial) and r == "unsat" and len(path.decisions) > 0
+        structural = (not nontrivial) and r == "unsat" and (len(path.decisions) > 0 or structural_claim)
         if nontrivial or structural:
             res["nontrivial"] += 1
         if structural and len(res["samples"]) < self.max_samples:
-            res["samples"].append({"shape": res["shape"], "vc": "%s.%s" % (self.prop, name), "result": "held (claim about the observed effects/structure of this path; the path itself was selected by %d solver-decided branches)" % len(path.decisions),
+            res["samples"].append({"shape": res["shape"], "vc": "%s.%s" % (self.prop, name), "result": "held (claim computed by the harness from the symbolic terms / effect log of this path, e.g. which symbols an output term mentions; %d solver-decided branches on the path)" % len(path.decisions),
                                    "decisions": _short(path.decisions)})
         vcid = "%s.%s" % (self.prop, name)
         if r == "unsat":
